@@ -114,6 +114,27 @@ def hook_requirements(ci, cref, names):
     return d, s
 
 
+PA_API = set(['gpu', 'backend', 'name', 'properties', 'constants', 'array', 'index', 'size', 'remove_particles', 'add_particles', 'get_carray', 'get', 'set', 'extract_particles',
+              'append_parray', 'get_number_of_particles', 'num_real_particles', 'stride', 'default_values', 'output_property_arrays', 'add_property', 'add_constant', 'remove_property',
+              'align_particles', 'resize', 'update_min_max', 'set_output_arrays', 'add_output_arrays', 'get_property_arrays', 'copy_properties', 'empty_clone', 'time',
+              'remove_tagged_particles', 'set_num_real_particles', 'get_npy_array', 'ensure_properties', 'extend', 'set_pid', 'set_to_zero', 'set_device_helper'])
+
+
+def python_hook_requirements(ci, cref):
+    """names read as `dst.<name>` in the Python-level hooks (reduce / py_initialize take the destination array itself): properties or constants it must have"""
+    out = {}
+    for hook, (rel, c2, fn) in EI.resolved_hooks(ci, cref.rel, cref.node, ('reduce', 'py_initialize')).items():
+        params = [a.arg for a in fn.args.args]
+        if len(params) < 2:
+            continue
+        dst = params[1]
+        for n in ast.walk(fn):
+            if isinstance(n, ast.Attribute) and isinstance(n.value, ast.Name) and n.value.id == dst and n.attr not in PA_API and isinstance(n.ctx, ast.Load):
+                par = getattr(n, 'parent', None)
+                out.setdefault(n.attr, (hook, rel, fn))
+    return out
+
+
 def stage_names(cref, it):
     out = set()
     for rel, c in it.mro(cref):
@@ -272,6 +293,9 @@ def main(chk):
                     dest = inst.kwargs.get('dest', inst.args[0] if inst.args else None)
                     srcs = inst.kwargs.get('sources', inst.args[1] if len(inst.args) > 1 else None)
                     d, s = hook_requirements(ci, inst.cls, EI.HOOKS)
+                    d = dict(d)
+                    for nm_, site in python_hook_requirements(ci, inst.cls).items():
+                        d.setdefault(nm_, site)
                     for role, need, side in [(dest, d, 'd')] + [(x, s, 's') for x in (srcs or [])]:
                         if not isinstance(role, str):
                             continue
@@ -334,7 +358,7 @@ def main(chk):
     chk.floor('configurations explored', total_cfg, 1000)
     chk.floor('construction sites (class, role, side)', total_sites, 350)
     chk.assume('option values are independent; every truth test / comparison of an option in the set-up code is explored both ways (a superset of the documented combinations)')
-    chk.assume('arrays of the precomputed symbols (x, y, z, u, v, w, h, m, rho) and Python-level hooks (reduce / py_initialize bodies) are not part of the requirement sets')
+    chk.assume('arrays of the precomputed symbols (x, y, z, u, v, w, h, m, rho) are not part of the requirement sets; for the Python-level hooks (reduce / py_initialize) the names read as dst.<name> are')
     chk.assume('particle arrays start as get_particle_array() defaults and are named after their role; inlet/outlet managers and user create_particles are outside')
 
 
